@@ -260,6 +260,26 @@ impl SubCheck for LeapNoPanic {
                 ensure!(r.nanosecond() < 2_000_000_000 && r >= NaiveDateTime::MIN && r <= NaiveDateTime::MAX, "invalid value from op {op}");
             }
         }
+        // zone-aware values round on the wall-clock reading: the DateTime route applied to a value whose
+        // wall clock is `n` gives the NaiveDateTime route's answer as its wall clock, leap reading or not
+        let off = [0i32, 3600, -3600 * 5 - 1800, ((z * 7919 + t.secs as i64).rem_euclid(172_799) - 86_399) as i32][(digits % 4) as usize];
+        let fo = FixedOffset::east_opt(off).ok_or("harness: offset")?;
+        obs.label_if(off > 0, "positive_offset");
+        obs.label_if(off % 60 != 0, "offset_with_seconds");
+        let dt = fo.from_local_datetime(&n).single().ok_or("harness: from_local_datetime")?;
+        for op in 0..3 {
+            let name = ["duration_trunc", "duration_round", "duration_round_up"][op];
+            let a = call("NaiveDateTime route", || match op { 0 => n.duration_trunc(td), 1 => n.duration_round(td), _ => n.duration_round_up(td) })?;
+            let b = call("DateTime route", || match op { 0 => dt.duration_trunc(td), 1 => dt.duration_round(td), _ => dt.duration_round_up(td) })?;
+            match (a, b) {
+                (Ok(x), Ok(y)) => {
+                    ensure_eq!(y.naive_local(), x, "{name}({td:?}) on wall clock {n:?} at offset {off}: DateTime route vs NaiveDateTime route");
+                    ensure_eq!(y.offset().local_minus_utc(), off, "{name}: offset kept");
+                }
+                (Err(x), Err(y)) => ensure_eq!(x, y, "{name}({td:?}) on wall clock {n:?}: error of the DateTime route vs the NaiveDateTime route"),
+                (x, y) => return Err(format!("{name}({td:?}) on wall clock {n:?} at offset {off}: NaiveDateTime route gives {x:?}, DateTime route gives {:?}", y.map(|v| v.naive_local()))),
+            }
+        }
         // within the second the multiples are defined: sub-second rounding is idempotent
         let r = call("round_subsecs on a leap second", || n.round_subsecs(digits))?;
         ensure_eq!(call("round_subsecs", || r.round_subsecs(digits))?, r, "round_subsecs idempotent on leap operand");
@@ -269,11 +289,33 @@ impl SubCheck for LeapNoPanic {
     }
 }
 
+pub struct ErrorClasses;
+impl SubCheck for ErrorClasses {
+    type Case = u8;
+    fn name(&self) -> &'static str {
+        "error_classes"
+    }
+    fn rule(&self) -> &'static str {
+        "single case: the three RoundingError classes are pairwise distinct as values and as Display text (a failure is reported as the class it belongs to); non-trivial by construction"
+    }
+    fn check(&self, _: &u8, obs: &mut Obs) -> Result<(), String> {
+        use chrono::RoundingError::*;
+        obs.nt("error_classes");
+        let all = [DurationExceedsTimestamp, DurationExceedsLimit, TimestampExceedsLimit];
+        let texts: Vec<String> = all.iter().map(|e| e.to_string()).collect();
+        ensure!(texts.iter().all(|t| !t.is_empty()), "empty error text: {texts:?}");
+        ensure!(texts[0] != texts[1] && texts[0] != texts[2] && texts[1] != texts[2], "the Display texts of the RoundingError classes are not pairwise distinct: {texts:?}");
+        ensure!(all[0] != all[1] && all[1] != all[2] && all[0] != all[2], "RoundingError classes compare equal");
+        Ok(())
+    }
+}
+
 pub fn subs() -> Vec<Box<dyn DynSub>> {
-    vec![Box::new(Round), Box::new(Subsec), Box::new(LeapNoPanic)]
+    vec![Box::new(Round), Box::new(Subsec), Box::new(LeapNoPanic), Box::new(ErrorClasses)]
 }
 
 pub fn run(ctx: &Ctx) {
+    ctx.run_cases(&ErrorClasses, vec![0u8]);
     let n = ctx.n(6_000_000, 300_000_000);
     ctx.run_prop(&Round, n);
     ctx.run_prop(&Subsec, n / 2);
